@@ -182,6 +182,11 @@ func (d *Driver) Lock(_ context.Context, name string, timeout time.Duration) (sc
 	if err != nil {
 		return nil, fmt.Errorf("sql/sqlite: reading lock dir: %w", err)
 	}
+	// An empty file is left behind by a process that died between
+	// creating the lock file and writing its expiration date to it.
+	if len(c) == 0 {
+		return acquireLock(path, timeout)
+	}
 	expires, err := strconv.ParseInt(string(c), 10, 64)
 	if err != nil {
 		return nil, fmt.Errorf("sql/sqlite: invalid lock file format: parsing expiration date: %w", err)
